@@ -388,8 +388,10 @@ def sink_sites(fn: ast.FunctionDef, src_name: str):
                 continue
             if isinstance(st, ast.If):
                 t = st.test
-                if isinstance(t, ast.Call) and dotted(t.func) == "isinstance" and len(t.args) == 2 \
-                        and dotted(t.args[1]) == "exp.Expression":
+                is_tree_test = (isinstance(t, ast.Call) and dotted(t.func) == "isinstance" and len(t.args) == 2
+                                and dotted(t.args[1]) == "exp.Expression")
+                if is_tree_test or dotted(t) == "skip_normalization":
+                    ctor = "RIfTree" if is_tree_test else "RIfSkip"
                     saved = dict(env)
                     stmts(st.body, cond)
                     e1 = dict(env)
@@ -397,7 +399,7 @@ def sink_sites(fn: ast.FunctionDef, src_name: str):
                     stmts(st.orelse, cond)
                     for k in set(e1) | set(env):
                         if k in e1 and k in env:
-                            env[k] = f"(RIfTree {e1[k]} {env[k]})" if e1[k] != env[k] else env[k]
+                            env[k] = f"({ctor} {e1[k]} {env[k]})" if e1[k] != env[k] else env[k]
                         else:
                             raise Untranslatable(f"{src_name}: {k} assigned on one branch only")
                     continue
